@@ -94,6 +94,20 @@ prop("C10", kind="sim", quick_runs=4000, thorough_s=600,
                   "(setting a key leaf to a value other than its entry's key makes the entry unreachable by that path, which the property does not cover)"])
 
 
+prop("C13", kind="sim", quick_runs=4000, thorough_s=600,
+     rule="one run = one seeded tree and a history of 1-4 (thorough: up to 10) SetRequests / atomic Notifications generated model first: each request is a "
+          "list of effects (delete subtree; replace = delete then write leaf assignments; update = write leaf assignments; ordered-list entries appended in "
+          "arrival order) over leaf, leaf-list, container, list-entry and ordered-list targets, encoded by the harness's own scalar / RFC 7951 encoders, "
+          "optionally under a common prefix; the recorded effects are applied to the path -> value reference model in gNMI order and compared with the "
+          "walker's view of the tree (leaf set and ordered-list order); distinct = distinct (package, outcome trace) hashes; non-trivial = some request changed the tree",
+     fault_kinds=["bad_request", "failing_request"],
+     probes=["state_changes", "multi_step_request", "overlapping_steps", "ordered_list_present", "effect:delete:leaf", "effect:delete:interior",
+             "effect:replace:leaf", "effect:replace:leaf-list", "effect:replace:container", "effect:replace:list-entry", "effect:replace:ordered-list-entry",
+             "effect:update:leaf", "effect:update:leaf-list", "effect:update:container", "effect:update:list-entry", "effect:update:ordered-list-entry",
+             "effect:replace:atomic"],
+     assumptions=["payload domain: schema-conforming subtrees generated by the harness; key leaves are not deleted on their own; shadow paths are not used in requests"])
+
+
 def run_workers(binp, pid, tier, base_seed, total_runs, deadline_s, extra_args=None, env=None, workers=None):
     """Runs hsim over [base_seed, base_seed+total_runs) split across workers. Returns parsed lines."""
     workers = workers or min(NCPU, 16)
